@@ -17,7 +17,9 @@ register('C06', 'exploration',
          "seeded search over (document, API, lazy depth, thin, channel, delivery plan): a lazy resource fed by a simulated "
          "stream/file/peer that hands the bytes over in seeded chunks (cuts inside tags, after the DOCTYPE, 1-8 byte "
          "reads, 16 KiB blocks) must give the verdict, error sequence, decoded data, elements and namespaces of the eager "
-         "load of the same bytes. Depth 1 decides, depths 2-3 are reported. Evidence, not proof.",
+         "load of the same bytes (validation, lax/strict/skip decoding incl. to a file object, path selections, resource "
+         "iteration; one lazy resource object asked twice and then validated in full must answer consistently). Depth 1 "
+         "decides, depths 2-3 are reported. Evidence, not proof.",
          TB + "; lazy error elements/paths are not compared (C19's unclaimed slice)",
          "deterministic simulation: delivery-plan fault injection on the document source; eager pristine-fork reference",
          'DESIGN.md 3 C06')
@@ -43,7 +45,9 @@ register('C11', 'fault_enumeration',
          "eof@k and flip@k at EVERY byte offset of three small documents (exhaustive block) plus seeded eof/flip/eio/"
          "seekfail/close faults on every stream class and on files, x validation mode x eager/lazy x entry point; limit "
          "sweeps at limit-1/limit/limit+1 for several MAX_XML_DEPTH / MAX_XML_ELEMENTS settings; stack sweeps below the "
-         "depth limit under three recursion limits and caller stack offsets; seeded lexical mutations. Oracle: library "
+         "depth limit under three recursion limits and caller stack offsets; seeded lexical mutations (huge numbers and "
+         "years, XPath arithmetic in type alternatives, odd QNames / namespace URIs / location hints, garbled text sources, "
+         "every converter, with and without the defusing pre-parse). Oracle: library "
          "exception or the injected instance, lax never raises for content, truncation never valid, limit rule, hang "
          "watchdog, clean retry equals the reference.",
          TB + "; wall-clock hang watchdog of 30 s; exactly-at-limit outcomes recorded not judged",
@@ -60,8 +64,9 @@ register('C12', 'fault_enumeration',
          "deterministic simulation: simulated file tree + stub network peer + audit-hook monitor, enumerated with fetch-fault injection",
          'DESIGN.md 3 C12')
 register('C13', 'fault_enumeration',
-         "every (payload, channel) pair of the catalogue (9 entity/DTD payloads + 3 benign x 28 channels) is enumerated "
-         "each run; defuse mode, role (instance, lazy instance, via schema settings, main/included/imported schema), "
+         "every (payload, channel) pair of the catalogue (10 entity/DTD payloads + 3 benign x 39 channels) is enumerated "
+         "each run; defuse mode, role (instance, lazy instance, via schema settings, main/included/imported/redefined "
+         "schema, schema reached through a hint or handed to the document-level API, from_settings, XmlDocument.parse), "
          "prolog variant (BOM, UTF-16, latin-1, padding past 8/16/64 KiB) and delivery plan (incl. cuts inside '<!ENTITY') "
          "are seeded; the peer may re-serve different bytes on the second open, a schema part may live on the other side "
          "(local/remote) of the main schema, one read of the stream may fail once during the pre-parse. Oracle: forbidden before expansion, no "
